@@ -278,6 +278,95 @@ func Check(c *Case, r *mon.R) {
 			}
 			r.Count("prunings_checked", 1)
 		}
+		// histories on one tree: on a freshly parsed copy the first walk skips
+		// below every node of one type, the second is a full walk; what a walk
+		// visits must not depend on the walks the tree has seen before
+		{
+			typesSeen := map[string]bool{}
+			var types []string
+			for _, n := range order {
+				if !typesSeen[n.TypeName] {
+					typesSeen[n.TypeName] = true
+					types = append(types, n.TypeName)
+				}
+			}
+			if len(types) > 4 {
+				rng.Shuffle(len(types), func(i, j int) { types[i], types[j] = types[j], types[i] })
+				types = types[:4]
+			}
+			for _, ty := range types {
+				stmts2, err2, o2 := mon.Parse(src)
+				if o2.Anomalous() || err2 != nil || len(stmts2) != len(stmts) {
+					r.Violation("", "Parse(%q) does not give the same outcome a second time", src)
+					return
+				}
+				st2 := stmts2[si]
+				nodes2 := Reach(st2)
+				by2 := map[uintptr][]*RNode{}
+				for _, n := range nodes2 {
+					by2[n.Ptr] = append(by2[n.Ptr], n)
+				}
+				find2 := func(n parser.Node) *RNode {
+					for _, c := range by2[NodePtr(n)] {
+						if fmt.Sprintf("%T", c.Node) == fmt.Sprintf("%T", n) {
+							return c
+						}
+					}
+					return nil
+				}
+				seen := map[*RNode]bool{}
+				o := mon.Walk(st2, func(n parser.Node) bool {
+					if IsNilNode(n) {
+						return false
+					}
+					rn := find2(n)
+					if rn == nil {
+						return true
+					}
+					seen[rn] = true
+					return rn.TypeName != ty
+				})
+				if o.Anomalous() {
+					r.Violation("", "first Walk of statement %d of %q with a visitor returning false at every %s: %s", si, src, ty, o.String())
+					return
+				}
+				var full []*RNode
+				o = mon.Walk(st2, func(n parser.Node) bool {
+					if IsNilNode(n) {
+						return false
+					}
+					full = append(full, find2(n))
+					return true
+				})
+				if o.Anomalous() {
+					r.Violation("", "second Walk of statement %d of %q: %s", si, src, o.String())
+					return
+				}
+				if len(full) != len(order) {
+					r.Violation("", "a full Walk of statement %d of %q visits %d nodes when the tree's first Walk had skipped below every %s, %d on a tree walked in full first", si, src, len(full), ty, len(order))
+					return
+				}
+				for i := range full {
+					if full[i] == nil || full[i].TypeName != order[i].TypeName || full[i].Node.Span() != order[i].Node.Span() {
+						r.Violation("", "a full Walk of statement %d of %q visits different nodes when the tree's first Walk had skipped below every %s (position %d)", si, src, ty, i)
+						return
+					}
+				}
+				for _, n := range full {
+					under := false
+					for p := n.Parent; p != nil; p = p.Parent {
+						if p.TypeName == ty && seen[p] {
+							under = true
+						}
+					}
+					if seen[n] == under {
+						r.Violation("", "first Walk of statement %d of %q with the visitor returning false at every %s: the %s at %v visited=%v (skip exactly the descendants)", si, src, ty, n.TypeName, n.Node.Span(), seen[n])
+						return
+					}
+				}
+				r.Count("walk_histories_checked", 1)
+			}
+		}
 		r.Count("nodes_visited", int64(len(order)))
 	}
 	if (c.Prog != nil && c.Prog.Weight() >= 3) || (c.Raw != nil && len(gen.Lexemes(src)) >= 6) {
